@@ -14,6 +14,6 @@ files=subprocess.check_output(['git','-C',w,'diff','--name-only']).decode().spli
 print(json.dumps({"Replace":{"/repo/"+f: w+"/"+f for f in files}}))
 PY
 for c in "$@"; do
-  VERIF_OVERLAY="$W.overlay.json" ./check "$c" quick 2>&1 | grep -E "VIOLATION|violation detail|quick:|BUILD-FAILED|ENGINE-ERROR" | cut -c1-400
+  VERIF_EVIDENCE_DIR="$W.evidence" VERIF_OVERLAY="$W.overlay.json" ./check "$c" quick 2>&1 | grep -E "VIOLATION|violation detail|quick:|BUILD-FAILED|ENGINE-ERROR" | cut -c1-400
 done
-git -C /repo worktree remove --force "$W"; rm -f "$W.overlay.json"
+git -C /repo worktree remove --force "$W"; rm -rf "$W.overlay.json" "$W.evidence"
